@@ -231,6 +231,18 @@ func runC05(r *Run) {
 				}
 			}
 		}
+		if added {
+			// the partition added later: its gauge and the caller's own handle follow the estimate like the strategy's view
+			if g := reg.Gauge(core.MetricPartitionLimit, "partition:c"); g != nil {
+				var v float64
+				var ok2 bool
+				w, w2 := kc.shares(want)
+				if RootCall(func() { v, ok2 = g.Value() }) && ok2 && int(v) != w && int(v) != w2 {
+					s.Fail("limit-gauge-wrong", kind+"/added-partition", "%s: the partition gauge of the added partition c reports %v, share is %d", where, v, w)
+					return false
+				}
+			}
+		}
 		chk, chkK := names, ks
 		if removedB {
 			chk, chkK = names[:1], ks[:1] // (registration order: a, then c in the predicate strategy)
